@@ -1,10 +1,370 @@
-import JP.Driver
-import JP.Impl.Den
+import JP.Lemmas.LegacyEngineText
 
-/-! # Property C18 — theorems (see DESIGN.md §6) -/
+/-!
+# C18 — the legacy (v4) `Apply` computes the RFC 6902 result up to member order
+
+`applyOps_refines`: the legacy engine model `Legacy.applyOps` refines the specification
+`Spec.applyFrom` (options: negative indices as the package variable says, no ensure, no
+allow-missing, copy limit 0), operation list by operation list, with `Value.eqv` in place of
+ordered equality:
+
+* where the specification succeeds, the legacy engine succeeds and the value of its root is the
+  specification's result up to member order (`Sim`: both duplicate-free and `Value.eqv`; number
+  literals are compared by their spelling, so they are kept);
+* where the specification fails with a *listed* cause — a failing `test`, an array index out of
+  range (`badIndex`), the `remove` / `move` of an absent location — the legacy engine reports an
+  error (no document);
+* nothing is claimed where the specification says `unspec` (outside the documented dialect) or
+  fails with another cause (the legacy package deviates there: `replace` of an absent member
+  succeeds, a `copy` whose source is an absent member copies `null`, a path through a duplicated
+  `null` reads as a nil map, …, examples at the end).
+
+The simulation relation `Legacy.Rel root d` (`JP/Lemmas/LegacyEngineApply.lean`) relates the
+legacy root to the specification's document: invariant `Inv` (`WF`: names duplicate-free, no nil
+map inside; `LT`: the text invariant), parsed container, `Sim (den root) d`.  The relation is
+*not* equality of ordered values, because `copy` duplicates by `json.Marshal`, which prints the
+members of a parsed object sorted by name; `JP/Lemmas/LegacyCongr.lean` shows that the
+specification respects `Sim`.
+
+Hypotheses per decoded operation (`Legacy.OpOK`, all decidable: `opOKb`):
+* `dom`  – the deviations the property leaves out are excluded: `add` at the root, `copy` from the
+  root or without `from`, `test` without `value`;
+* `val`  – a present value has duplicate-free names and satisfies the text invariant `RawOK`
+  (string values are fixed by `unquote` and by the HTML escaper: `test` compares spellings and
+  `copy` re-spells; names survive re-quoting);
+* `toks` – the reference tokens of `path` survive `quoteBody true` / `unquote`;
+* `nn`   – a present value is not the literal `null` (guaranteed by `Legacy.decodeOp`).
+-/
 
 namespace JP
 namespace C18
+open Value Legacy
+
+/-- **C18, the engine**: from a root related to the document `d`, against `Spec.applyFrom` -/
+theorem applyOps_refines (neg : Bool) (sizeAt : Nat → Nat) (ops : List Legacy.Op) (sops : List Spec.Op)
+    (root : Legacy.Node) (d : Value) (i acc : Nat) (acci : Int)
+    (hrel : Rel root d) (hs : Legacy.specOps ops = some sops) (hops : ∀ op ∈ ops, OpOK op) :
+    match Spec.applyFrom (Legacy.specOpts neg) sizeAt i acc d sops with
+    | .ok v => ∃ r', Legacy.applyOps neg 0 root acci ops = .ok r' ∧
+        Legacy.WF r' = true ∧ isDA r' = true ∧ Value.eqv (Legacy.den r') v = true ∧ Rel r' v
+    | .fail j c => listedAt sops i j c = true → ∃ e, Legacy.applyOps neg 0 root acci ops = .err e
+    | .unspec => True := by
+  have := applyOps_refines_rel neg sizeAt ops sops root d i acc acci hrel hs hops
+  cases hres : Spec.applyFrom (Legacy.specOpts neg) sizeAt i acc d sops with
+  | unspec => trivial
+  | fail j c => rw [hres] at this; exact this
+  | ok v =>
+    rw [hres] at this
+    obtain ⟨r', h1, h2⟩ := this
+    exact ⟨r', h1, h2.1.1, h2.2.1, h2.2.2.2.2, h2⟩
+
+/-- **C18 from the document's syntax tree**: `Spec.apply` on the value of an object- or
+array-rooted document against the engine started on the root `ApplyIndent` decodes -/
+theorem apply_refines (neg : Bool) (sizeAt : Nat → Nat) (c : Cst)
+    (hc1 : c.valueOf.noDup = true) (hc2 : RawOK c = true)
+    (ops : List Legacy.Op) (sops : List Spec.Op)
+    (hs : Legacy.specOps ops = some sops) (hops : ∀ op ∈ ops, OpOK op) :
+    match Spec.apply (Legacy.specOpts neg) sizeAt c.valueOf sops with
+    | .ok v => ∃ r', Legacy.applyOps neg 0 (rootOf c) 0 ops = .ok r' ∧
+        Legacy.WF r' = true ∧ Value.eqv (Legacy.den r') v = true
+    | .fail j c' => listedAt sops 0 j c' = true → ∃ e, Legacy.applyOps neg 0 (rootOf c) 0 ops = .err e
+    | .unspec => True := by
+  simp only [Spec.apply]
+  cases hcont : c.valueOf.isContainer with
+  | false => simp
+  | true =>
+    simp only [if_true]
+    have h := applyOps_refines neg sizeAt ops sops (rootOf c) c.valueOf 0 0 0
+      (rootOf_rel hc1 hc2 hcont) hs hops
+    cases hres : Spec.applyFrom (Legacy.specOpts neg) sizeAt 0 0 c.valueOf sops with
+    | unspec => trivial
+    | fail j cc => rw [hres] at h; exact h
+    | ok v =>
+      rw [hres] at h
+      obtain ⟨r', h1, h2, _, h4, _⟩ := h
+      exact ⟨r', h1, h2, h4⟩
+
+/-- **C18 on texts**: `Apply` (no indent) on a well-formed object- or array-rooted document.  On
+success the output is the marshalled root, whose syntax tree denotes the RFC result up to member
+order; a listed failure is an error (no document) -/
+theorem applyBytes_refines (neg : Bool) (sizeAt : Nat → Nat) (doc : Bytes) (c : Cst)
+    (hp : parseCst doc = some c) (hc1 : c.valueOf.noDup = true) (hc2 : RawOK c = true)
+    (ops : List Legacy.Op) (sops : List Spec.Op)
+    (hs : Legacy.specOps ops = some sops) (hops : ∀ op ∈ ops, OpOK op) :
+    match Spec.apply (Legacy.specOpts neg) sizeAt c.valueOf sops with
+    | .ok v => ∃ r', Legacy.applyBytes neg 0 [] doc ops = .ok (Cst.print (Legacy.cstOf r')) ∧
+        (Legacy.cstOf r').valueOf.noDup = true ∧ Value.eqv (Legacy.cstOf r').valueOf v = true
+    | .fail j c' => listedAt sops 0 j c' = true → ∃ e, Legacy.applyBytes neg 0 [] doc ops = .err e
+    | .unspec => True := by
+  simp only [Spec.apply]
+  cases hcont : c.valueOf.isContainer with
+  | false => simp
+  | true =>
+    simp only [if_true]
+    have hcc : (c.isArr || c.isObj) = true := by rw [← Legacy.isContainer_valueOf]; exact hcont
+    have hroot := decodeRoot_of_parse hp hcc
+    have hne := parseCst_ne_nil hp
+    have h := applyOps_refines neg sizeAt ops sops (rootOf c) c.valueOf 0 0 0
+      (rootOf_rel hc1 hc2 hcont) hs hops
+    cases hres : Spec.applyFrom (Legacy.specOpts neg) sizeAt 0 0 c.valueOf sops with
+    | unspec => trivial
+    | fail j cc =>
+      rw [hres] at h
+      intro hl
+      obtain ⟨e, he⟩ := h hl
+      exact ⟨e, applyBytes_err hne hroot he⟩
+    | ok v =>
+      rw [hres] at h
+      obtain ⟨r', h1, _, _, _, hrel⟩ := h
+      have hsim := cstOf_sim r' hrel.1
+      have := Sim.trans hsim hrel.2.2
+      exact ⟨r', applyBytes_ok hne hroot h1, this.1, this.2.2⟩
+
+/-! ### the hypotheses are decidable -/
+
+/-- Boolean form of `OpOK` -/
+def opOKb (op : Legacy.Op) : Bool :=
+  (match op.value with
+   | .val c => c.valueOf.noDup && RawOK c && !c.isNullLit
+   | _ => true) &&
+  (match op.path with
+   | .ok p => (match Spec.parsePointer p with
+               | some toks => toks.all (Impl.QK true)
+               | none => true)
+   | _ => true) &&
+  opDom op
+
+theorem opOK_of_b {op : Legacy.Op} (h : opOKb op = true) : OpOK op := by
+  simp only [opOKb, Bool.and_eq_true] at h
+  obtain ⟨⟨h1, h2⟩, h3⟩ := h
+  refine ⟨?_, ?_, ?_, h3⟩
+  · intro c hc
+    rw [hc] at h1
+    simp only [Bool.and_eq_true, Bool.not_eq_true'] at h1
+    exact ⟨h1.1.1, h1.1.2⟩
+  · intro p toks hp ht t hmem
+    rw [hp] at h2
+    simp only [ht, List.all_eq_true] at h2
+    exact h2 t hmem
+  · intro c hc
+    rw [hc] at h1
+    simp only [Bool.and_eq_true, Bool.not_eq_true'] at h1
+    exact h1.2
+
+/-- what `Legacy.decodeOp` produces never holds the literal `null` as a present value -/
+theorem decodeOp_nn (ms : List (Bytes × Cst)) : ∀ c, (Legacy.decodeOp ms).value = .val c → c.isNullLit = false := by
+  intro c h
+  simp only [Legacy.decodeOp, Legacy.opValue, Legacy.member] at h
+  split at h
+  · cases h
+  · cases h
+  · rename_i c' hm
+    simp only [ValField.val.injEq] at h
+    subst h
+    split at hm
+    · cases hm
+    · rename_i c'' _
+      split at hm
+      · cases hm
+      · rename_i hn
+        simp only [Member.val.injEq] at hm
+        subst hm
+        simpa using hn
+
+/-! ### the hypotheses in primitive terms
+
+`PlainCst c`: every body of the tree — string values and member names — holds no backslash,
+quote or control character, none of `<`, `>`, `&`, U+2028, U+2029, and is valid UTF-8 (this is
+the harness's "no escapes, no raw HTML characters"); reference tokens are valid UTF-8. -/
+
+/-- Boolean side conditions on one decoded operation, in primitive terms -/
+def opPlainb (op : Legacy.Op) : Bool :=
+  (match op.value with
+   | .val c => c.valueOf.noDup && PlainCst c && !c.isNullLit
+   | _ => true) &&
+  (match op.path with
+   | .ok p => (match Spec.parsePointer p with
+               | some toks => toks.all isValidUtf8
+               | none => true)
+   | _ => true) &&
+  opDom op
+
+theorem opOK_of_plain {op : Legacy.Op} (h : opPlainb op = true) : OpOK op := by
+  simp only [opPlainb, Bool.and_eq_true] at h
+  obtain ⟨⟨h1, h2⟩, h3⟩ := h
+  refine ⟨?_, ?_, ?_, h3⟩
+  · intro c hc
+    rw [hc] at h1
+    simp only [Bool.and_eq_true, Bool.not_eq_true'] at h1
+    exact ⟨h1.1.1, RawOK_of_PlainCst h1.1.2⟩
+  · intro p toks hp ht t hmem
+    rw [hp] at h2
+    simp only [ht, List.all_eq_true] at h2
+    exact QK_of_utf8 (h2 t hmem)
+  · intro c hc
+    rw [hc] at h1
+    simp only [Bool.and_eq_true, Bool.not_eq_true'] at h1
+    exact h1.2
+
+/-- **C18 on texts, primitive hypotheses**: a well-formed object- or array-rooted document without
+duplicate names, document and operation values spelled plainly, valid UTF-8 reference tokens -/
+theorem applyBytes_refines_plain (neg : Bool) (sizeAt : Nat → Nat) (doc : Bytes) (c : Cst)
+    (hp : parseCst doc = some c) (hc1 : c.valueOf.noDup = true) (hc2 : PlainCst c = true)
+    (ops : List Legacy.Op) (sops : List Spec.Op)
+    (hs : Legacy.specOps ops = some sops) (hops : ∀ op ∈ ops, opPlainb op = true) :
+    match Spec.apply (Legacy.specOpts neg) sizeAt c.valueOf sops with
+    | .ok v => ∃ r', Legacy.applyBytes neg 0 [] doc ops = .ok (Cst.print (Legacy.cstOf r')) ∧
+        (Legacy.cstOf r').valueOf.noDup = true ∧ Value.eqv (Legacy.cstOf r').valueOf v = true
+    | .fail j c' => listedAt sops 0 j c' = true → ∃ e, Legacy.applyBytes neg 0 [] doc ops = .err e
+    | .unspec => True :=
+  applyBytes_refines neg sizeAt doc c hp hc1 (RawOK_of_PlainCst hc2) ops sops hs
+    (fun op h => opOK_of_plain (hops op h))
+
+/-! ### the hypotheses are satisfiable: a run with every kind of operation -/
+
+section Examples
+
+/-- `{"a":{"y":1,"x":[10,20,30]},"b":"s","n":null}` -/
+def exDoc : Cst := .obj [(ascii "a", .obj [(ascii "y", .lit (ascii "1")),
+    (ascii "x", .arr [.lit (ascii "10"), .lit (ascii "20"), .lit (ascii "30")])]),
+  (ascii "b", .str (ascii "s")), (ascii "n", .lit (ascii "null"))]
+
+def mkOp (kind path : String) (frm : Option String := none) (value : ValField := .absent) : Legacy.Op :=
+  { kind := ascii kind, path := .ok (ascii path),
+    frm := match frm with | some f => .ok (ascii f) | none => .missing, value := value }
+
+/-- add into an array by a negative index (`-1`: after the last element), copy an object, test the copy (member order differs:
+the copy is printed sorted), move, replace, remove, add null -/
+def exOps : List Legacy.Op := [
+  mkOp "add" "/a/x/-1" none (.val (.lit (ascii "25"))),
+  mkOp "copy" "/c" (some "/a"),
+  mkOp "test" "/c" none (.val (.obj [(ascii "x", .arr [.lit (ascii "10"), .lit (ascii "20"), .lit (ascii "30"), .lit (ascii "25")]), (ascii "y", .lit (ascii "1"))])),
+  mkOp "move" "/a/x/0" (some "/b"),
+  mkOp "replace" "/a/y" none (.val (.lit (ascii "1.0"))),
+  mkOp "remove" "/n",
+  mkOp "add" "/z" none .null]
+
+example : exDoc.valueOf.noDup = true ∧ RawOK exDoc = true ∧ exDoc.valueOf.isContainer = true := by
+  decide +kernel
+example : exOps.all opOKb = true := by decide +kernel
+example : PlainCst exDoc = true ∧ exOps.all opPlainb = true := by decide +kernel
+example : parseCst (Cst.print exDoc) = some exDoc := rfl
+example : (Legacy.specOps exOps).isSome = true := by decide +kernel
+
+/-- the legacy run, and the specification's result on the same input: equal up to member order
+(`"c"` is printed with its members sorted), literals kept (`1.0`) -/
+example : (match Legacy.applyBytes true 0 [] (Cst.print exDoc) exOps with
+    | .ok out => out == ascii "{\"a\":{\"x\":[\"s\",10,20,30,25],\"y\":1.0},\"c\":{\"x\":[10,20,30,25],\"y\":1},\"z\":null}"
+    | _ => false) = true := by decide +kernel
+example : (match Legacy.specOps exOps with
+    | some sops => (match Spec.apply (Legacy.specOpts true) (fun _ => 0) exDoc.valueOf sops,
+          parseValueOf (ascii "{\"a\":{\"x\":[\"s\",10,20,30,25],\"y\":1.0},\"c\":{\"x\":[10,20,30,25],\"y\":1},\"z\":null}") with
+        | .ok v, some w => Value.eqv v w && !Value.beq v w
+        | _, _ => false)
+    | none => false) = true := by decide +kernel
+
+/-- negative indices follow the package setting: with `SupportNegativeIndices = false` the first
+operation is an index error for both -/
+example : (match Legacy.applyBytes false 0 [] (Cst.print exDoc) exOps with
+    | .err .invalidIndex => true | _ => false) = true := by decide +kernel
+example : (match Legacy.specOps exOps with
+    | some sops => (match Spec.apply (Legacy.specOpts false) (fun _ => 0) exDoc.valueOf sops with
+        | .fail 0 .badIndex => listedAt sops 0 0 .badIndex
+        | _ => false)
+    | none => false) = true := by decide +kernel
+
+/-- listed failures: a failing test, the removal of an absent member -/
+example : (match Legacy.applyBytes true 0 [] (Cst.print exDoc)
+      [mkOp "test" "/b" none (.val (.str (ascii "t")))] with
+    | .err .testFailed => true | _ => false) = true := by decide +kernel
+example : (match Legacy.applyBytes true 0 [] (Cst.print exDoc) [mkOp "remove" "/q"] with
+    | .err .missing => true | _ => false) = true := by decide +kernel
+
+/-- copy yields an independent duplicate: changing the copy leaves the source alone -/
+example : (match Legacy.applyBytes true 0 [] (Cst.print exDoc)
+      [mkOp "copy" "/c" (some "/a/x"), mkOp "add" "/c/0" none (.val (.lit (ascii "0")))] with
+    | .ok out => out == ascii "{\"a\":{\"x\":[10,20,30],\"y\":1},\"b\":\"s\",\"c\":[0,10,20,30],\"n\":null}"
+    | _ => false) = true := by decide +kernel
+
+end Examples
+
+/-! ### the excluded deviations are real
+
+`specRun` / `legacyRun` run the specification and the legacy model on the same document and
+patch; each example shows the two disagreeing on an input that violates exactly one hypothesis
+(or fails with an unlisted cause). -/
+
+section Deviations
+
+def specRun (neg : Bool) (c : Cst) (ops : List Legacy.Op) : Spec.Outcome :=
+  match Legacy.specOps ops with
+  | some sops => Spec.apply (Legacy.specOpts neg) (fun _ => 0) c.valueOf sops
+  | none => .unspec
+
+def legacyOk (c : Cst) (ops : List Legacy.Op) : Bool :=
+  match Legacy.applyBytes true 0 [] (Cst.print c) ops with
+  | .ok _ => true
+  | _ => false
+
+def specOk (c : Cst) (ops : List Legacy.Op) : Bool :=
+  match specRun true c ops with
+  | .ok _ => true
+  | _ => false
+
+/-- `{"a":1}` -/
+def dDoc : Cst := .obj [(ascii "a", .lit (ascii "1"))]
+
+/-- `add` at the root: RFC replaces the document, the legacy package reports "missing" (`dom`) -/
+example : specOk dDoc [mkOp "add" "" none (.val (.obj []))] = true ∧
+    legacyOk dDoc [mkOp "add" "" none (.val (.obj []))] = false := by decide +kernel
+
+/-- `copy` from the root: RFC copies the whole document, the legacy package reports "missing" (`dom`) -/
+example : specOk dDoc [mkOp "copy" "/b" (some "")] = true ∧
+    legacyOk dDoc [mkOp "copy" "/b" (some "")] = false := by decide +kernel
+
+/-- `test` without `value` after a null was added: the specification reads the missing operand as
+null and succeeds, the legacy package fails (`dom`; RFC 6902 requires `value`) -/
+example : specOk dDoc [mkOp "add" "/n" none .null, mkOp "test" "/n"] = true ∧
+    legacyOk dDoc [mkOp "add" "/n" none .null, mkOp "test" "/n"] = false := by decide +kernel
+
+/-- escaped spelling under `test`: equal values, different spellings (`val`: `RawOK` fails) -/
+example : specOk (.obj [(ascii "a", .str (ascii "A"))]) [mkOp "test" "/a" none (.val (.str (ascii "\\u0041")))] = true ∧
+    legacyOk (.obj [(ascii "a", .str (ascii "A"))]) [mkOp "test" "/a" none (.val (.str (ascii "\\u0041")))] = false ∧
+    RawOK (.str (ascii "\\u0041")) = false := by decide +kernel
+
+/-- `<` under `test` after a `copy`: the duplicate is re-spelled `<` (`RawOK` fails on the document) -/
+example : specOk (.obj [(ascii "a", .str (ascii "<"))])
+      [mkOp "copy" "/b" (some "/a"), mkOp "test" "/b" none (.val (.str (ascii "<")))] = true ∧
+    legacyOk (.obj [(ascii "a", .str (ascii "<"))])
+      [mkOp "copy" "/b" (some "/a"), mkOp "test" "/b" none (.val (.str (ascii "<")))] = false ∧
+    RawOK (.obj [(ascii "a", .str (ascii "<"))]) = false := by decide +kernel
+
+/-- unlisted failure causes, where the legacy package goes on: `replace` of an absent member -/
+example : (match specRun true dDoc [mkOp "replace" "/q" none (.val (.lit (ascii "2")))] with
+    | .fail 0 .absentMember => true | _ => false) = true ∧
+    legacyOk dDoc [mkOp "replace" "/q" none (.val (.lit (ascii "2")))] = true := by decide +kernel
+
+/-- … `copy` of an absent member (copies a nil node, printed `null`) -/
+example : (match specRun true dDoc [mkOp "copy" "/b" (some "/q")] with
+    | .fail 0 .absentMember => true | _ => false) = true ∧
+    legacyOk dDoc [mkOp "copy" "/b" (some "/q")] = true := by decide +kernel
+
+/-- … `test` below the duplicate of a null (a raw `null` is entered as a nil map) -/
+example : (match specRun true dDoc [mkOp "add" "/n" none .null, mkOp "copy" "/m" (some "/n"),
+        mkOp "test" "/m/x" none .null] with
+    | .fail 2 .parentUnreachable => true | _ => false) = true ∧
+    legacyOk dDoc [mkOp "add" "/n" none .null, mkOp "copy" "/m" (some "/n"), mkOp "test" "/m/x" none .null] = true := by
+  decide +kernel
+
+end Deviations
 
 end C18
 end JP
+
+-- #print axioms JP.C18.applyOps_refines
+-- #print axioms JP.C18.apply_refines
+-- #print axioms JP.C18.applyBytes_refines
+-- #print axioms JP.C18.applyBytes_refines_plain
+-- #print axioms JP.C18.opOK_of_plain
+-- #print axioms JP.C18.opOK_of_b
+-- #print axioms JP.C18.decodeOp_nn
